@@ -3,6 +3,8 @@ package c16
 import (
 	"context"
 	"fmt"
+	"os"
+	"os/exec"
 	"strings"
 	"time"
 
@@ -102,4 +104,23 @@ func Run(r *ev.Run) {
 	}
 	footprint(r)
 	interleavings(r)
+	if r.Thorough() || os.Getenv("VERIF_RACE_PASS") == "1" {
+		racePass(r)
+	}
+}
+
+// racePass is the supplementary free-running pass under the race detector (sampled; reported separately).
+func racePass(r *ev.Run) {
+	cmd := exec.Command("go", "test", "-race", "-tags", "verif", "-count=1", "-run", "TestRacePass", "./checks/c16/racepass/")
+	cmd.Dir = ev.Root()
+	out, err := cmd.CombinedOutput()
+	res := "no report (sampled: proves nothing)"
+	if strings.Contains(string(out), "DATA RACE") {
+		res = "DATA RACE reported"
+		i := strings.Index(string(out), "WARNING: DATA RACE")
+		r.Violation("race-detector-report", "the race detector reports a data race in concurrent Resolve/Targets:\n"+string(out[i:min(len(out), i+1500)]), nil)
+	} else if err != nil {
+		res = "could not run: " + err.Error()
+	}
+	r.Set("supplementary_race_pass", map[string]any{"kind": "sampled, 8 goroutines x 200 iterations, go test -race; not counted as exploration", "result": res})
 }
